@@ -15,6 +15,8 @@ pub fn gens() -> Vec<Gen> {
     vec![
         Gen { name: "c07.unicode", prop: "C07", tags: &["unicode", "escape", "disclosure.rs", "non-bmp"], cases: cases_unicode, check },
         Gen { name: "c07.crafted", prop: "C07", tags: &["crafted", "arity", "index", "holder.rs", "verifier.rs", "select_disclosures", "unpack"], cases: cases_crafted, check },
+        Gen { name: "c07.kb_claims", prop: "C07", tags: &["kb", "nonce", "sd_hash", "verify_key_binding", "key_binding"], cases: cases_kb_claims, check },
+        Gen { name: "c07.char_boundary", prop: "C07", tags: &["boundary", "utf", "slice", "abbreviate", "create_hash_mappings", "lib.rs"], cases: cases_char_boundary, check },
         Gen { name: "c07.issuer_inputs", prop: "C07", tags: &["issuer", "path", "claims", "issuer.rs"], cases: cases_issuer_inputs, check },
         Gen { name: "c07.garbage", prop: "C07", tags: &["garbage", "parse", "lib.rs"], cases: cases_garbage, check },
         Gen { name: "c07.mutated", prop: "C07", tags: &["mutat", "truncate"], cases: cases_mutated, check },
@@ -126,6 +128,69 @@ fn cases_issuer_inputs(rng: &mut Rng, sink: &mut dyn FnMut(J) -> bool) {
         }
         if n > 6000 {
             return;
+        }
+    }
+}
+
+/// KB-JWTs validly signed by the confirmed holder key whose claims are incomplete or ill-typed.
+fn cases_kb_claims(_rng: &mut Rng, sink: &mut dyn FnMut(J) -> bool) {
+    let fields = ["nonce", "sd_hash", "aud", "iat"];
+    let mut edits: Vec<J> = Vec::new();
+    for mask in 0u32..16 {
+        let omit: Vec<&str> = (0..4).filter(|i| mask >> i & 1 == 1).map(|i| fields[i]).collect();
+        edits.push(json!({"omit": omit, "set": {}}));
+    }
+    for f in fields {
+        for v in [json!(null), json!(5), json!([]), json!({}), json!(true), json!(""), json!(["x"]), json!(1.5)] {
+            edits.push(json!({"omit": [], "set": {f: v}}));
+        }
+    }
+    let mut n = 0usize;
+    for format in ["compact", "json"] {
+        for (alg, holder) in [("ES256", "es256"), ("EdDSA", "eddsa")] {
+            for typ in [json!("kb+jwt"), json!(null), json!("JWT")] {
+                for e in &edits {
+                    n += 1;
+                    if typ != json!("kb+jwt") && n % 4 != 0 {
+                        continue;
+                    }
+                    if !sink(json!({"op": "kb_claims", "format": format, "alg": alg, "holder": holder, "typ": typ, "edit": e})) {
+                        return;
+                    }
+                }
+            }
+        }
+    }
+}
+
+/// Undecodable strings in which a multi-byte UTF-8 character straddles every byte offset 1..48
+/// (as a disclosure of a validly signed SD-JWT, as KB-JWT, and as the JWT itself).
+fn cases_char_boundary(_rng: &mut Rng, sink: &mut dyn FnMut(J) -> bool) {
+    let payload = json!({"iss": "https://issuer.example/i", "exp": FAR_EXP, "vis": "v", "_sd": ["#0"]});
+    let mut n = 0usize;
+    for k in 0..48usize {
+        for ch in ["\u{e9}", "\u{20ac}", "\u{1F600}"] {
+            for tail in ["", "zzzzzzzzzzzzzzzzzzzzzzzzzzzzzzzz"] {
+                n += 1;
+                let raw = format!("{}{}{}", "a".repeat(k), ch, tail);
+                let case = json!({
+                    "op": "crafted", "payload": payload, "disclosures": [["s", "n", "v"], {"$raw": raw}], "present": null,
+                    "format": if n % 2 == 0 { "compact" } else { "json" }, "key": "ES256", "selections": [{}, {"n": true}], "kb": false
+                });
+                if !sink(case) {
+                    return;
+                }
+                // the same string in the other positions of a presentation
+                for text in [format!("{raw}.e30.e30~"), format!("e30.{raw}.e30~"), format!("eyJhbGciOiJFUzI1NiJ9.e30.{raw}~"), format!("eyJhbGciOiJFUzI1NiJ9.e30.AA~W10~{raw}")] {
+                    if !sink(json!({"op": "text", "text": text, "format": "compact", "kb": n % 2 == 0})) {
+                        return;
+                    }
+                }
+                let j = json!({"protected": "eyJhbGciOiJFUzI1NiJ9", "payload": "e30", "signature": "AA", "disclosures": [raw.clone()], "kb_jwt": raw.clone()});
+                if !sink(json!({"op": "text", "text": jstr(&j), "format": "json", "kb": n % 2 == 0})) {
+                    return;
+                }
+            }
         }
     }
 }
@@ -612,6 +677,34 @@ fn check_inproc(case: &J) -> Verdict {
             let text = parts.serialize(format);
             let sels: Vec<Map<String, J>> = case["selections"].as_array().map(|a| a.iter().filter_map(|s| s.as_object().cloned()).collect()).unwrap_or_default();
             exercise_text(&text, format, case["kb"].as_bool().unwrap_or(false), key, &sels, &mut log);
+        }
+        "kb_claims" => {
+            let holder = case["holder"].as_str().unwrap_or("es256");
+            let alg = case["alg"].as_str().unwrap_or("ES256");
+            let cfg = Cfg { claims: json!({"iss": "i", "exp": FAR_EXP, "a": "x", "b": {"c": 1}}), strategy: Strategy::AllLevels, format: format.into(), alg: alg.into(), decoys: false, holder: Some(holder.into()) };
+            let Out::Ok(issued) = cfg.issue() else { return Verdict::Trivial };
+            let Out::Ok(mut h) = sut::holder_new(&issued, format) else { return Verdict::Trivial };
+            let kb = Kb::new(holder);
+            let Out::Ok(pres) = sut::present(&mut h, &select_all(&cfg.claims), Some(&kb)) else { return Verdict::Trivial };
+            let Some(mut p) = Parts::parse(&pres, format) else { return Verdict::Trivial };
+            let mut claims = crate::pipeline::honest_kb_claims(&kb, &p.jwt, &p.disclosures);
+            for f in case["edit"]["omit"].as_array().cloned().unwrap_or_default() {
+                claims.as_object_mut().unwrap().shift_remove(f.as_str().unwrap_or(""));
+            }
+            for (k, v) in case["edit"]["set"].as_object().cloned().unwrap_or_default() {
+                claims[k] = v;
+            }
+            p.kb = crate::pipeline::make_kb(&keys::holder_enc(holder), keys::holder_alg(holder), case["typ"].as_str(), &claims);
+            if p.kb.is_none() {
+                return Verdict::Trivial;
+            }
+            let text = p.serialize(format);
+            let v = sut::verify(&text, alg, Some(&kb), format);
+            log.note(&format!("SDJWTVerifier::new(.., aud, nonce) with a holder-signed KB-JWT whose claims are {}", jstr(&claims)), &v);
+            let v = sut::verify(&text, alg, None, format);
+            log.note("SDJWTVerifier::new without aud/nonce", &v);
+            let h2 = sut::holder_new(&text, format);
+            log.note("SDJWTHolder::new(presentation with that KB-JWT)", &h2);
         }
         "select" => {
             let Some(cfg) = Cfg::from_json(case) else { return Verdict::Trivial };
